@@ -1059,6 +1059,17 @@ fn c13(spec: &RunSpec) -> ! {
         Ok(Err(e)) => sim::violation("C13", "registration-failed", &format!("registration of a valid descriptor failed: {}", e)),
         Err(_) => sim::violation("C13", "registration-panicked", &format!("registration of a valid descriptor panicked: {}", panic_msg())),
     };
+    // the application keeps a duplicate of a *socket* it registered and switches it back to
+    // blocking mode (file status flags are shared between duplicates): deliveries must stay
+    // non-blocking all the same - for sockets the library promises MSG_DONTWAIT per delivery, not a
+    // flag it set once (pipes are different: there the flag is the documented mechanism)
+    if kind != FdKind::Pipe && second && ending == 0 {
+        let d = unsafe { libc::dup(wr) };
+        if d >= 0 {
+            set_blocking(d, true);
+            unsafe { libc::close(d) };
+        }
+    }
     // the sibling registration of the same open file description (made first, see above) goes
     // away now: the surviving registration must not be affected (file status flags are shared
     // between duplicates of a descriptor)
